@@ -12,6 +12,7 @@ import (
 
 var spanType = reflect.TypeOf(parser.Span{})
 var kindType = reflect.TypeOf(parser.TokenKind(0))
+var nodeType = reflect.TypeOf((*parser.Node)(nil)).Elem()
 
 // dumpNode prints an AST canonically by reflection over exported fields:
 // (Type Field=value …) with fields sorted by name, spans "a:b", strings in hex, nil.
@@ -27,9 +28,20 @@ func dumpValue(sb *strings.Builder, v reflect.Value) {
 		return
 	}
 	switch v.Kind() {
-	case reflect.Interface, reflect.Pointer:
+	case reflect.Interface:
 		if v.IsNil() {
 			sb.WriteString("nil")
+			return
+		}
+		dumpValue(sb, v.Elem())
+	case reflect.Pointer:
+		if v.IsNil() {
+			sb.WriteString("nil")
+			return
+		}
+		if v.Type().Implements(nodeType) && v.Elem().Kind() == reflect.Struct {
+			// a node: print the result of its Span() method as pseudo-field "@"
+			dumpStruct(sb, v.Elem(), spanResult(v.Interface().(parser.Node)))
 			return
 		}
 		dumpValue(sb, v.Elem())
@@ -41,23 +53,7 @@ func dumpValue(sb *strings.Builder, v reflect.Value) {
 			sb.WriteString(strconv.Itoa(sp.End))
 			return
 		}
-		t := v.Type()
-		names := make([]string, 0, t.NumField())
-		for i := 0; i < t.NumField(); i++ {
-			if t.Field(i).IsExported() {
-				names = append(names, t.Field(i).Name)
-			}
-		}
-		sort.Strings(names)
-		sb.WriteByte('(')
-		sb.WriteString(t.Name())
-		for _, n := range names {
-			sb.WriteByte(' ')
-			sb.WriteString(n)
-			sb.WriteByte('=')
-			dumpValue(sb, v.FieldByName(n))
-		}
-		sb.WriteByte(')')
+		dumpStruct(sb, v, "")
 	case reflect.Slice:
 		sb.WriteByte('[')
 		for i := 0; i < v.Len(); i++ {
@@ -84,6 +80,40 @@ func dumpValue(sb *strings.Builder, v reflect.Value) {
 	default:
 		fmt.Fprintf(sb, "?%s", v.Kind())
 	}
+}
+
+func spanResult(n parser.Node) (res string) {
+	defer func() {
+		if r := recover(); r != nil {
+			res = "PANIC"
+		}
+	}()
+	sp := n.Span()
+	return strconv.Itoa(sp.Start) + ":" + strconv.Itoa(sp.End)
+}
+
+func dumpStruct(sb *strings.Builder, v reflect.Value, at string) {
+	t := v.Type()
+	names := make([]string, 0, t.NumField())
+	for i := 0; i < t.NumField(); i++ {
+		if t.Field(i).IsExported() {
+			names = append(names, t.Field(i).Name)
+		}
+	}
+	sort.Strings(names)
+	sb.WriteByte('(')
+	sb.WriteString(t.Name())
+	if at != "" {
+		sb.WriteString(" @=")
+		sb.WriteString(at)
+	}
+	for _, n := range names {
+		sb.WriteByte(' ')
+		sb.WriteString(n)
+		sb.WriteByte('=')
+		dumpValue(sb, v.FieldByName(n))
+	}
+	sb.WriteByte(')')
 }
 
 // fmtParse prints the result of parser.Parse:
